@@ -168,6 +168,41 @@ def big_shard(st, shard, nshards, payload):
                         return
 
 
+def _EXq():
+    return ('E', ('X', fm.Q))
+
+
+VOCAB_TEMPLATES = [fm.P, ('or', _EXq(), fm.P), ('A', ('G', ('imp', _EXq(), fm.P))), ('and', fm.P, _EXq()),
+                   ('E', ('U', fm.P, fm.Q)), ('A', ('F', fm.P)), ('E', ('G', ('not', fm.P))), ('A', ('R', fm.Q, fm.P)),
+                   ('A', ('X', ('or', fm.P, ('E', ('G', fm.Q)))))]
+VOCAB_STRUCTURES = [(2, 77), (3, 1000), (3, 2345), (3, 3210), (3, 4044)]
+
+
+def vocab_shard(st, shard, nshards, payload):
+    """Atoms named like the identifiers and string constants of the library's own source (vp/vocab.py):
+    p is spelled as each of them in turn, q stays."""
+    from .. import vocab
+    names = vocab.names()[::payload.get('stride', 1)]
+    Ks = [km.scope_at(n, i) for (n, i) in VOCAB_STRUCTURES]
+    i = -1
+    for w in names:
+        for ki, K in enumerate(Ks):
+            for ti, t in enumerate(VOCAB_TEMPLATES):
+                i += 1
+                if i % nshards != shard or (ki + ti) % payload.get('thin', 1):
+                    continue
+                inp = {'K': K, 'f': t, 'naming': NAMINGS[(ki + ti) % 3], 'how': ti % 6, 'form': ('obj', 'text')[ti % 2],
+                       'atoms': {'p': w}, 'cross': False}
+                st.evaluations += 1
+                if ti == 0 and ki == 0:
+                    st.bump('vocabulary: atom names tried')
+                r = check_ctl(inp)
+                if r is not None:
+                    if st.failure is None:
+                        st.failure = r
+                    return
+
+
 CHECKS = {'ctl': check_ctl, 'deep': check_deep, 'big': check_big}
 
 
@@ -388,6 +423,12 @@ def run(ctx):
         ctx.violation(f)
         return
 
+    ctx.scopes.append('vocabulary: p spelled as each identifier / string constant of the library source (about 500 names, read from the tree '
+                      'under test) x 9 CTL templates x 5 structures%s' % ('' if ctx.thorough else ' (every 2nd combination)'))
+    f = core.run_sharded(ctx, vocab_shard, {'thin': ctx.pick(2, 1)})
+    if f is not None:
+        ctx.violation(f)
+        return
     bp = {'Ns': ctx.pick([1100], [400, 1100, 2600]), 'ltl_max': ctx.pick(0, 1100)}
     ctx.scopes.append('size: 8 shapes (timer, countdown, ring, lollipop, ladder, tree, two rings, fan) with %s states x 12 CTL formulas '
                       'through CTL (and CTL* / LTL for those they share)' % [n_ + 1 for n_ in bp['Ns']])
